@@ -514,7 +514,45 @@ def ev_reject(case, rec):
                         rec.fail('HP value with a minutes or seconds field >= 60 was accepted', site='angles:%s:reject' % name,
                                  observed=repr(v), case={'deg': d, 'hp': x}, coords={'hp': x})
                         rec.outcome('accepted-invalid')
+                    if frac != '999999999' and (m in (60, 75, 99, 0, 59) and s in (0, 59, 60, 75, 99)):
+                        reject_objects(rec, d, sg * float('%d.%02d%02d%s' % (d, m, s, frac)))
     rec.sample(case)
+
+
+OBJ_USES = [('dec()', lambda o: o.dec()), ('deca()', lambda o: o.deca()), ('rad()', lambda o: o.rad()), ('gon()', lambda o: o.gon()),
+            ('gona()', lambda o: o.gona()), ('o + HPAngle', lambda o: o + ga.HPAngle(1.0)), ('HPAngle + o', lambda o: ga.HPAngle(1.0) + o),
+            ('o - HPAngle', lambda o: o - ga.HPAngle(1.0)), ('o * 2', lambda o: o * 2), ('o / 2', lambda o: o / 2), ('o == HPAngle', lambda o: o == ga.HPAngle(1.0)),
+            ('o < HPAngle', lambda o: o < ga.HPAngle(1.0)), ('-o', lambda o: -o), ('abs(o)', lambda o: abs(o))]
+
+
+def reject_objects(rec, d, x):
+    """HP angle OBJECTS that came to hold the invalid value without passing the constructor (public field assigned, augmented,
+    pickle / copy of such an object): every HP-to-decimal conversion of the object (dec / deca / rad / gon / gona, the arithmetic
+    and comparison operators, which compute in decimal degrees) rejects it with an error"""
+    import copy
+    import pickle
+    o1 = ga.HPAngle(12.3045)
+    o1.hp_angle = x
+    o2 = ga.HPAngle(0.0)
+    o2.hp_angle += x
+    o3 = pickle.loads(pickle.dumps(o1))
+    o4 = copy.deepcopy(o1)
+    for how, o in (('assigned', o1), ('augmented', o2), ('unpickled', o3), ('deep-copied', o4)):
+        for use, f in OBJ_USES:
+            rec.transitions += 1
+            rec.nontriv(('obj', x, how, use))
+            try:
+                v = f(o)
+            except ValueError:
+                rec.outcome('rejected-object')
+                continue
+            except Exception as e:
+                rec.fail('invalid HP in an HP object rejected with an unexpected exception type', site='angles:HPAngle:%s:reject' % use,
+                         observed=e, case={'deg': d, 'hp': x}, coords={'how': how})
+                continue
+            rec.fail('an HP angle object holding a value with a minutes or seconds field >= 60 (%s) converts it instead of rejecting it: %s' % (how, use),
+                     site='angles:HPAngle:object-reject', observed=repr(v), case={'deg': d, 'hp': x}, coords={'hp': x, 'how': how, 'use': use})
+            rec.outcome('accepted-invalid-object')
 
 
 def ev_reject_single(case, rec):
